@@ -578,6 +578,7 @@ DIRECTED = [
     _d(_B, _BASIC_SETUP,
        [{"op": "walk", "path": "l2", "top_down": True, "follow_symlinks": False},
         {"op": "walk", "path": "<0>", "top_down": True, "follow_symlinks": True}, {"op": "glob", "path": "", "pattern": "*"},
+        {"op": "glob", "path": "", "pattern": "nomatch*"}, {"op": "glob", "path": "<0>", "pattern": "*.txt"},
         {"op": "write_text", "path": "<0>/new", "data": "  lead and trail \n\n"}, {"op": "write_text", "path": "<1>", "data": ""},
         {"op": "symlink_to", "path": "<0>/s1", "target": "<1>"}, {"op": "hardlink_to", "path": "<0>/h1", "target": "<1>"},
         {"op": "mkdir", "path": "<0>/m1", "mode": 0o750, "parents": False, "exist_ok": False}, {"op": "size", "path": "<0>/g"},
